@@ -91,6 +91,15 @@ def generate(rng, tier):
                 actor["ops"][-1].pop("chained", None)
                 actor["ops"] = [{"op": "scope", "label": "SC", "body": [{"op": "sleep", "d": 64}],
                                  "children": [{"name": actor["name"] + "c", "ops": actor["ops"]}]}]
+            if rng.random() < 0.3:
+                # a sibling root that is still asleep inside a try/finally with a suspending
+                # clean-up when the run fails: run() reports the failure itself, whatever
+                # becomes of the abandoned activity
+                bystander = {"name": "r%d" % len(actors), "ops": [{
+                    "op": "finally", "handler": [{"op": "postpone", "k": 1}], "always": True,
+                    "body": [{"op": "sleep", "d": rng.choice([0.25, 1, 64])},
+                             {"op": "sleep", "d": 64}]}]}
+                actors.insert(rng.randint(0, len(actors)), bystander)
             scenario = {"start": start, "roots": "direct", "resources": {}, "actors": actors}
             if rng.random() < 0.3:
                 scenario["till"] = start + 50
@@ -284,7 +293,10 @@ def _check_run(bad, index, kind, scenario, rec):
         if first_bad is not None:
             pos = rec.trace.index(first_bad)
             # with till the roots are children of a scope: siblings may finish the time step
+            # (whether run() tears abandoned activities down is not stated: their being closed -
+            # GeneratorExit reaching a clean-up handler - is no "progress after the failure")
             later = [ev for ev in rec.trace[pos + 1:] if ev[4] not in ("exc",)
+                     and ev[4] not in ("cleanup+", "cleanup-")
                      and (scenario.get("till") is None or ev[2] > first_bad[2])
                      # a child's failure takes some turns of that time step to leave its root
                      and not (first_bad[3] not in roots and ev[2] == first_bad[2])]
